@@ -2,6 +2,7 @@ package main
 
 import (
 	"fmt"
+	"go/types"
 	"sort"
 	"strings"
 
@@ -46,6 +47,50 @@ func (P *Program) globalWriters() map[string][]string {
 		}
 		return nil
 	}
+	// struct types of which a package-level variable holds an instance (process-wide singletons): their sync.Map fields
+	// are shared tables too, written through Store / LoadOrStore / Delete / Swap / CompareAndSwap
+	singleton := map[string]bool{}
+	for _, pk := range P.prog.AllPackages() {
+		if pk.Pkg == nil || !strings.HasPrefix(pk.Pkg.Path(), modPath) {
+			continue
+		}
+		for _, m := range pk.Members {
+			if g, ok := m.(*ssa.Global); ok {
+				t := g.Type().(*types.Pointer).Elem()
+				if pt, ok := t.(*types.Pointer); ok {
+					t = pt.Elem()
+				}
+				if n, ok := t.(*types.Named); ok && n.Obj().Pkg() != nil {
+					if _, isStruct := n.Underlying().(*types.Struct); isStruct {
+						singleton[n.Obj().Pkg().Path()+"."+n.Obj().Name()] = true
+					}
+				}
+			}
+		}
+	}
+	addTable := func(fa *ssa.FieldAddr, fn *ssa.Function) {
+		pt, ok := fa.X.Type().Underlying().(*types.Pointer)
+		if !ok {
+			return
+		}
+		n, ok := pt.Elem().(*types.Named)
+		if !ok || n.Obj().Pkg() == nil || !singleton[n.Obj().Pkg().Path()+"."+n.Obj().Name()] {
+			return
+		}
+		st := n.Underlying().(*types.Struct)
+		k := shortPkg(n.Obj().Pkg().Path()) + "." + n.Obj().Name() + "." + st.Field(fa.Field).Name()
+		root := fn
+		for root.Parent() != nil {
+			root = root.Parent()
+		}
+		name := shortPkg(root.Pkg.Pkg.Path()) + "." + root.RelString(root.Pkg.Pkg)
+		for _, x := range out[k] {
+			if x == name {
+				return
+			}
+		}
+		out[k] = append(out[k], name)
+	}
 	var scan func(fn *ssa.Function)
 	scan = func(fn *ssa.Function) {
 		if fn.Name() == "init" || strings.HasPrefix(fn.Name(), "init#") {
@@ -64,6 +109,14 @@ func (P *Program) globalWriters() map[string][]string {
 					}
 				case ssa.CallInstruction:
 					c := in.Common()
+					if callee := c.StaticCallee(); callee != nil && len(c.Args) > 0 {
+						switch callee.String() {
+						case "(*sync.Map).Store", "(*sync.Map).LoadOrStore", "(*sync.Map).Delete", "(*sync.Map).Swap", "(*sync.Map).CompareAndSwap", "(*sync.Map).LoadAndDelete", "(*sync.Map).CompareAndDelete", "(*sync.Map).Clear":
+							if fa, ok := c.Args[0].(*ssa.FieldAddr); ok {
+								addTable(fa, fn)
+							}
+						}
+					}
 					if b, ok := c.Value.(*ssa.Builtin); ok && (b.Name() == "delete" || b.Name() == "clear") && len(c.Args) > 0 {
 						if g := rootOf(c.Args[0]); g != nil {
 							add(g, fn)
